@@ -58,8 +58,10 @@ DATE_READER_RW = R_PARAM + [
 ]
 DATE_WRITER_RW = [
     SELF(1), sig('_update: &mut U__', 'update_: &mut U__'),
-    {'rule': 'R7', 'find': 'format!("D:{year:04}{month:02}{day:02}{hour:02}{minute:02}{second:02}{o}{tz_hour:02}\'{tz_minute:02}")',
-     'replace': 'hoist_format_date(year, month, day, hour, minute, second, o, tz_hour, tz_minute)'},
+    # the placeholders of the format string become the arguments, in the order the source names them (a swapped
+    # placeholder pair is therefore a swapped argument pair of the helper, not a lost anchor)
+    {'rule': 'R7', 'regex': r"""format!\("D:\{(\w+):04\}\{(\w+):02\}\{(\w+):02\}\{(\w+):02\}\{(\w+):02\}\{(\w+):02\}\{(\w+)\}\{(\w+):02\}'\{(\w+):02\}"\)""",
+     'replace': r'hoist_format_date(\1, \2, \3, \4, \5, \6, \7, \8, \9)'},
     {'rule': 'R1', 'find': 'let o = match rel {', 'replace': 'proof { lemma_date_literals(); lemma_fmt_is_iso(*this); } let o = match rel {'},
     {'rule': 'R7', 'find': 'data: s.into()', 'replace': 'data: hoist_string_into_bytes(s)'},
 ]
@@ -86,7 +88,7 @@ ENC_WRITER_RW = [
     {'rule': 'R2', 'find': 'let mut last = None;', 'replace': 'let mut last: Option<u32> = None;'},
     {'rule': 'R6', 'find': 'for &(&gid, name) in diff_list.iter() {',
      'replace': 'let mut i__: usize = 0; while i__ < diff_list.len() { let e__ = &diff_list[i__]; let gid = *e__.0; let name = e__.1; proof { assert(ents[i__ as int].0 == gid && ents[i__ as int].1 == *name); } i__ += 1;'},
-    {'rule': 'R1', 'find': 'last.map(|n| n + 1 == gid)', 'replace': 'last.map(|n: u32| -> (b: bool) requires n < gid ensures b == (n + 1 == gid) { n + 1 == gid })'},
+    {'rule': 'R1', 'regex': r'last\.map\(\|n\| (.*?)\)\.unwrap_or', 'replace': r'last.map(|n: u32| -> (b: bool) requires n < gid ensures b == (\1) { \1 }).unwrap_or'},
     {'rule': 'R1', 'find': 'let mut dict = Dictionary::new();', 'replace': 'let ghost list0 = list; let mut dict = Dictionary::new();'},
     {'rule': 'R1', 'find': 'Ok(Primitive::Dictionary(dict))', 'replace': 'proof { lemma_enc_keys(); assert(is_sorted_entries(this.differences@, ents)); assert(enc_dict(base, diff_array(ents, ents.len() as int), Primitive::Dictionary(dict))); } Ok(Primitive::Dictionary(dict))'},
 ]
@@ -111,6 +113,40 @@ ACTION_WRITER_RW = [
     {'rule': 'R7', 'regex': r'"GoTo"\.into\(\)', 'count': '*', 'replace': 'SmallString::from("GoTo")'},
 ]
 
+# ---- NumberTree ---------------------------------------------------------------------------------------------------------
+NT_READER_RW = [
+    {'rule': 'R1', 'find': 'let limits = match dict.remove("Limits") {', 'replace': 'proof { lemma_nt_keys(); } let ghost dict0 = dict@; let limits = match dict.remove("Limits") {'},
+    {'rule': 'R7', 'regex': r't!\((kids\.resolve\(resolve\)\?\.into_array\(\)\?)\.iter\(\)\.map\(\|kid\|\s*Ref::<NumberTree<T>>::from_primitive\(kid\.clone\(\), resolve\)\s*\)\.collect::<Result<Vec<_>>>\(\)\)',
+     'replace': r't!(hoist_read_refs::<NumberTree<T>, R__>(&\1, resolve))'},
+    {'rule': 'R2', 'find': 'let mut items = Vec::with_capacity(list.len() / 2);', 'replace': 'let mut items: Vec<(i32, T)> = Vec::with_capacity(list.len() / 2);'},
+    # R6: `.into_iter().tuples()` yields (list[0], list[1]), (list[2], list[3]), ... and drops an odd last element
+    {'rule': 'R6', 'find': 'for (key, item) in list.into_iter().tuples() {',
+     'replace': 'let mut i__: usize = 0; while list.len() - i__ >= 2 { let key = list[i__].clone(); let item = list[i__ + 1].clone(); i__ += 2; '
+                'proof { lemma_pairs_err_sticks::<T>(list@, i__ as int / 2, list@.len() as int / 2, resolve.store()); }'},
+    {'rule': 'R2', 'find': 'node: NumberTreeNode::Intermediate(vec![])', 'replace': 'node: NumberTreeNode::Intermediate({ let e__: Vec<Ref<NumberTree<T>>> = Vec::new(); proof { assert(ref_ids(e__@) =~= Seq::<PlainRef>::empty()); } e__ })'},
+    {'rule': 'R1', 'find': 'node: NumberTreeNode::Leaf(items)', 'replace': 'node: { proof { assert(i__ as int / 2 == list@.len() as int / 2); } NumberTreeNode::Leaf(items) }'},
+]
+NT_READER_LOOPS = {1: {'invariant': [
+    'i__ <= list.len()', 'i__ % 2 == 0',
+    ('pairs_prefix', 'pairs_read::<T>(list@, i__ as int / 2, resolve.store()) == Ok::<Seq<(i32, T)>, PdfError>(items@)')],
+    'decreases': 'list.len() - i__'}}
+NT_WRITER_RW = [
+    SELF('*'),
+    {'rule': 'R1', 'find': 'let mut dict = Dictionary::new();', 'replace': 'proof { lemma_nt_keys(); } let mut dict = Dictionary::new();'},
+    {'rule': 'R7', 'find': 'vec![limits.0.into(), limits.1.into()]', 'replace': 'hoist_vec_into(hoist_int_pair(limits.0, limits.1))'},
+    {'rule': 'R1', 'find': 'let mut nums = Vec::with_capacity(items.len() * 2);', 'replace': 'proof { axiom_vec_len_bound(items); } let mut nums: Vec<Primitive> = Vec::with_capacity(items.len() * 2);'},
+    {'rule': 'R6', 'find': 'for &(idx, ref label) in items {',
+     'replace': 'let mut i__: usize = 0; while i__ < items.len() { let it__ = &items[i__]; let idx = it__.0; let label = &it__.1; i__ += 1;'},
+    {'rule': 'R7', 'find': 'nums.push(idx.into());', 'replace': 'nums.push(hoist_i32_into(idx));'},
+    {'rule': 'R7', 'find': 'dict.insert("Nums", nums);', 'replace': 'dict.insert("Nums", hoist_vec_into(nums));'},
+    {'rule': 'R7', 'find': 'kids.iter().map(|r| r.get_inner().into()).collect_vec()', 'replace': 'hoist_vec_into(hoist_refs_to_prims(kids))'},
+    {'rule': 'R7', 'find': 'Ok(dict.into())', 'replace': 'Ok(hoist_dict_into(dict))'},
+]
+NT_WRITER_LOOPS = {1: {'invariant': [
+    'i__ <= items.len()',
+    ('nums_prefix', 'nums@ == nums_array(items@, i__ as int)')],
+    'decreases': 'items.len() - i__'}}
+
 UNIT = {
  'name': 'hwpairs2',
  'doc': 'hand-written reader/writer pairs Date, Encoding, NumberTree, Matrix, Dest, Action: reads(writes(x)) == Ok(x); readers panic-free',
@@ -123,6 +159,8 @@ UNIT = {
   'struct Encoding': {'kind': 'decl', 'file': E, 'header': r'^pub struct Encoding$'},
   'struct Matrix': {'kind': 'decl', 'file': C, 'header': r'^pub struct Matrix$', 'attrs': ['#[derive(Clone, Copy)]']},
   'enum Action': {'kind': 'decl', 'file': T, 'header': r'^pub enum Action$'},
+  'struct NumberTree': {'kind': 'decl', 'file': T, 'header': r'^pub struct NumberTree<T>$'},
+  'enum NumberTreeNode': {'kind': 'decl', 'file': T, 'header': r'^pub enum NumberTreeNode<T>$'},
   # ---- Date
   'parse_or': {'kind': 'fn', 'file': P, 'container': None, 'name': 'parse_or', 'props': RD,
       'ensures': [('field_or_default', 'r == field(str_bytes(buffer), range.start as int, range.end as int, default)')],
@@ -172,5 +210,13 @@ UNIT = {
       [('wr_goto', '*this matches Action::Goto(dest) ==> (r matches Ok(p) ==> is_goto_dict(p, mnd_writes(dest))) && (r is Err ==> mnd_wfail(dest))'),
        ('wr_other', '*this matches Action::Other(d) ==> r == Ok::<Primitive, PdfError>(Primitive::Dictionary(d))')],
       extra=ACTION_WRITER_RW),
+  # ---- NumberTree
+  'numbertree_from_primitive': reader(r'^impl<T: Object> Object for NumberTree<T>$', 'numbertree_from_primitive', 'NumberTree<T>',
+      [('rd_spec', 'nt_agrees(r, nt_reads::<T>(p, resolve.store()))')], generics='T: Object, ', extra=NT_READER_RW, loops=NT_READER_LOOPS,
+      attrs=['#[verifier::loop_isolation(false)]']),
+  'numbertree_to_primitive': writer(r'^impl<T: ObjectWrite> ObjectWrite for NumberTree<T>$', 'numbertree_to_primitive', 'NumberTree<T>',
+      [('wr_value', 'r matches Ok(p) ==> nt_writes(nt_view(*this), p)'),
+       ('wr_err', 'r is Err ==> (this.node matches NumberTreeNode::Leaf(items) && exists|i: int| 0 <= i < items@.len() && (#[trigger] items@[i]).1.wfail())')],
+      generics='T: ObjectWrite, ', extra=NT_WRITER_RW, loops=NT_WRITER_LOOPS, attrs=['#[verifier::loop_isolation(false)]']),
  },
 }
